@@ -54,6 +54,7 @@ def run(ctx):
     rule_shared(ctx, F)
     import c10
     c10.rule_walk(ctx, F)   # a walk enumerates the reader's version: it descends through every non-cut node
+    rule_stored(ctx, F)
 
 
 def _version_args(b, t):
@@ -666,3 +667,29 @@ def rule_shared(ctx, F):
                "answer for that name turns from NXDOMAIN / the wildcard into NODATA as soon as an uncommitted writer descends "
                "to it, and stays so after the writer is abandoned" % p.split("nodes::")[-1], b.where(locks[0]))
     ctx.call_sites += n
+
+
+def rule_stored(ctx, F):
+    """The commit publishes exactly the writer's changes: an `update_rrset` that answers Ok has stored the RRset in the
+    version being written.  Every Ok return of WriteNode::update_rrset lies behind `NodeRrsets::update` -- there is no
+    shortcut for "nothing changed" (what the published version holds says nothing about what this writer has already
+    done to the RRset in its own version: remove, then add the same data again)."""
+    R = "C09.stored"
+    ctx.floor(R, 1)
+    b = F.one_body(r"^zonetree::in_memory::write::WriteNode::update_rrset$")
+    if not ctx.anchor(R, "WriteNode::update_rrset", b):
+        return
+    ups = [bb for bb, t in b.calls() if re.search(r"NodeRrsets::update$", t["fn"] or "")]
+    if not ctx.anchor(R, "NodeRrsets::update in update_rrset", len(ups) >= 1, b.where()):
+        return
+    n = 0
+    for rb, si, kind, term in return_assignments(b):
+        if kind != "Ok":
+            continue
+        n += 1
+        ok, pth = must_pass(b, 0, [rb], ups)
+        ctx.ob(R, b, "Ok is answered only after the RRset was stored in the new version", ok,
+               "WriteNode::update_rrset returns Ok on a path that does not store the RRset (%s): the change is dropped although "
+               "the writer was told it was made -- e.g. an RRset removed and re-added with the published data in one version "
+               "is gone after the commit" % fmt_path(pth), b.where(rb))
+    ctx.anchor(R, "an Ok return in update_rrset", n >= 1, b.where())
